@@ -176,8 +176,51 @@ def run_solved(spec):
     return {'nontrivial': True, 'labels': ['solved']}
 
 
+@st.composite
+def model_log_case(draw):
+    return {'model': draw(st.sampled_from(['SIM', 'SIMEX1', 'PC'])), 'T': draw(st.integers(1, 8)),
+            'G': '%d.%d' % (draw(st.integers(1, 90)), draw(st.integers(0, 9)))}
+
+
+def run_model_log(spec):
+    """Model.main(base) logs the table to <base>_out.txt: it must be the faithful table of the solved model."""
+    import os
+    import shutil
+    import tempfile
+    from sfc_models.gl_book.chapter3 import SIM, SIMEX1
+    from sfc_models.gl_book.chapter4 import PC
+    from sfc_models.utils import Logger
+    cls = {'SIM': SIM, 'SIMEX1': SIMEX1, 'PC': PC}[spec['model']]
+    mod = cls('C', use_book_exogenous=False).build_model()
+    gov = mod['C']['TRE'] if spec['model'] == 'PC' else mod['C']['GOV']
+    gov.SetExogenous('DEM_GOOD', '[%s]*%d' % (spec['G'], spec['T'] + 3))
+    mod.MaxTime = spec['T']
+    tmp = tempfile.mkdtemp(prefix='c19_')
+    try:
+        try:
+            mod.main(os.path.join(tmp, 'run'))
+        except Exception as ex:
+            raise Reject('model not solved: ' + type(ex).__name__)
+        finally:
+            Logger.cleanup()
+        with open(os.path.join(tmp, 'run_out.txt')) as f:
+            text = f.read()
+    finally:
+        shutil.rmtree(tmp, ignore_errors=True)
+    data = {k: list(v) for k, v in mod.EquationSolver.TimeSeries.items()}
+    # the logger appends nothing but may ensure a final newline
+    check_table(text, data, '%.5g', bucket='C19/model-log')
+    rows = text[:-1].split('\n')[1:]
+    if len(rows) != spec['T'] + 1:
+        raise Violation('C19/model-log-rows', 'logged table has %d data rows for horizon %d' % (len(rows), spec['T']))
+    if text != mod.EquationSolver.GenerateCSVtext():
+        raise Violation('C19/model-log-differs', 'logged table differs from GenerateCSVtext()')
+    return {'nontrivial': True, 'labels': ['model:' + spec['model']]}
+
+
 FAMILIES = [
     Family('holder', holder_case, run_holder, quick=5000, thorough=300000),
+    Family('model-log', model_log_case, run_model_log, quick=64, thorough=1500),
     Family('solved', solved_case, run_solved, quick=800, thorough=30000),
 ]
 
